@@ -475,7 +475,8 @@ class Interp:
             new = self.class_lookup(cls, "__new__")
             init = self.class_lookup(cls, "__init__")
             if isinstance(init, types.FunctionType):
-                if is_repo_function(init):
+                generated = getattr(cls, "__dataclass_fields__", None) is not None and init.__code__.co_filename.startswith("<")
+                if is_repo_function(init) and not generated:
                     self.call_function(init, [obj] + list(args), kwargs)
                 elif getattr(cls, "__dataclass_fields__", None) is not None:
                     env.dataclass_init(self, obj, cls, args, kwargs)
